@@ -1025,7 +1025,7 @@ class Interp(object):
         self.unwind(st)
 
     def new_payload(self, st):
-        aid = st.new_alloc(1, 1, "payload", "panic payload")
+        aid = st.new_alloc(1, 1, "heap", "panic payload")
         return Ptr(aid, 0)
 
     def unwind(self, st):
@@ -1244,7 +1244,7 @@ class Interp(object):
             pr = self.eval_place(st, fr, t["p"])
             fn = self.prog.fns[fnid]
             arg = (self.place_ptr_blob(st, pr), None)
-            if fn["kind"] == "virtual":
+            if fn["kind"] == "virtual" or self.prog.kind(pr.ty) == "dyn":
                 if not isinstance(pr.meta, VT):
                     raise Unsupported("virtual drop without vtable")
                 e = self.vtable_entry(pr.meta, 0)
